@@ -79,7 +79,7 @@ func can(t reflect.Type) bool {
 				return false
 			}
 			for i := 0; i < t.NumField(); i++ {
-				p, _ := per.ParseTag(t.Field(i).Tag.Get("aper"))
+				p, _ := per.ParseTag(per.FieldTag(t, i))
 				if p.Optional {
 					continue
 				}
@@ -366,7 +366,7 @@ func isIEList(et reflect.Type) bool {
 	if et.Kind() != reflect.Struct || et.NumField() != 3 {
 		return false
 	}
-	p, _ := per.ParseTag(et.Field(2).Tag.Get("aper"))
+	p, _ := per.ParseTag(per.FieldTag(et, 2))
 	return p.OpenType
 }
 
@@ -430,11 +430,11 @@ func maxInt(a, b int) int {
 func (g *Gen) ieWith(et reflect.Type, alt int) reflect.Value {
 	v := reflect.New(et).Elem()
 	vt := et.Field(2).Type
-	ap, _ := per.ParseTag(vt.Field(alt).Tag.Get("aper"))
+	ap, _ := per.ParseTag(per.FieldTag(vt, alt))
 	// identifier
 	setRef(v.Field(0), bound(ap.RefFieldValue, 0))
 	// criticality
-	cp, _ := per.ParseTag(et.Field(1).Type.Field(0).Tag.Get("aper"))
+	cp, _ := per.ParseTag(per.FieldTag(et.Field(1).Type, 0))
 	v.Field(1).Field(0).SetUint(uint64(g.R.Int63n(bound(cp.ValueUB, 2) + 1)))
 	val := v.Field(2)
 	val.Field(0).SetInt(int64(alt))
@@ -473,7 +473,7 @@ func (g *Gen) choice(t reflect.Type, p per.Params) reflect.Value {
 		a = alts[0]
 	}
 	v.Field(0).SetInt(int64(a))
-	fp, _ := per.ParseTag(t.Field(a).Tag.Get("aper"))
+	fp, _ := per.ParseTag(per.FieldTag(t, a))
 	v.Field(a).Set(g.Value(t.Field(a).Type, fp))
 	g.feat("choice")
 	return v
@@ -483,7 +483,7 @@ func (g *Gen) sequence(t reflect.Type, p per.Params) reflect.Value {
 	v := reflect.New(t).Elem()
 	n := t.NumField()
 	for i := 0; i < n; i++ {
-		fp, _ := per.ParseTag(t.Field(i).Tag.Get("aper"))
+		fp, _ := per.ParseTag(per.FieldTag(t, i))
 		ft := t.Field(i).Type
 		if fp.Optional {
 			if !Can(ft) || g.Budget < 0 || g.R.Intn(2) == 0 {
@@ -505,7 +505,7 @@ func (g *Gen) sequence(t reflect.Type, p per.Params) reflect.Value {
 				continue
 			}
 			a := alts[g.R.Intn(len(alts))]
-			ap, _ := per.ParseTag(vt.Field(a).Tag.Get("aper"))
+			ap, _ := per.ParseTag(per.FieldTag(vt, a))
 			for j := 0; j < i; j++ {
 				if t.Field(j).Name == fp.RefFieldName {
 					setRef(v.Field(j), bound(ap.RefFieldValue, 0))
